@@ -232,7 +232,7 @@ def main(argv):
             lines.append('INCONCLUSIVE property=%s reason=%s' % (prop, pr.replace('\n', ' | ')[:1500]))
 
     wall = time.time() - t0
-    if not replay_path:
+    if not replay_path and not os.environ.get('VERIF_NO_EVIDENCE'):
         cov = {
             'evaluations': agg['evaluations'],
             'distinct_nontrivial': distinct,
